@@ -101,7 +101,7 @@ def write_replay(pid: str, v: Violation) -> Path:
     payload = {"property": pid, "key": v.key, "what": v.what, "driver": v.driver, "case": v.case}
     txt = json.dumps(payload, sort_keys=True, indent=1, default=_jsonable)
     h = hashlib.sha1(txt.encode()).hexdigest()[:16]
-    d = REPLAYS / pid
+    d = (Path(os.environ["LVF_SCRATCH"]) if os.environ.get("LVF_SCRATCH") else REPLAYS) / pid
     d.mkdir(parents=True, exist_ok=True)
     p = d / f"{h}.json"
     p.write_text(txt)
